@@ -346,17 +346,26 @@ theorem C32_witnesses_closed : ∀ k < 20,
   decide
 
 /-! ### fs.WriteFile -/
+
+/-- the path handed to Chmod, by the role the extractor found: the temporary (mode set before the rename) or the destination -/
+def chmodPathG (t dest : String) : String := if C32.writeFileChmodArgs.head? == some "dest" then dest else t
+
+theorem chmodPathG_eq (t dest : String) : chmodPathG t dest = t := by
+  have h := C32_facts_ok
+  have : C32.writeFileChmodArgs = ["temp.Name", "mode"] := by decide
+  simp [chmodPathG, this]
+
 open PlzVerif.WriteFile in
 /-- **fs.WriteFile is atomic at its destination.**  For the call order regenerated from the source, every cut `k` of
     the operation list (temp file in the destination's directory under a different name `t`, data copied in ANY
     pieces, chmod, rename) leaves the destination with exactly its old content or exactly the complete new content
-    with the requested mode; no other file of the directory except the temporary is touched. -/
+    with the REQUESTED MODE (never the temporary's 0600); no other file of the directory except the temporary is touched. -/
 theorem C32_writeFile_atomic (t dest : String) (ht : t ≠ dest) (chunks : List (List UInt8)) (mode : Nat) (d : Dir) (k : Nat) :
-    (run d ((opsWith C32.writeFileCalls t dest chunks mode).take k) dest = d dest ∨
-     run d ((opsWith C32.writeFileCalls t dest chunks mode).take k) dest = some ⟨chunks.flatten, effMode mode⟩) ∧
-    ∀ x, x ≠ t → x ≠ dest → run d ((opsWith C32.writeFileCalls t dest chunks mode).take k) x = d x := by
-  rw [wfcalls_eq]
-  have hops : opsWith codedCalls t dest chunks mode = pre t chunks mode ++ [.rename t dest] := ops_eq t dest chunks mode
+    (run d ((opsWith C32.writeFileCalls (chmodPathG t dest) t dest chunks mode).take k) dest = d dest ∨
+     run d ((opsWith C32.writeFileCalls (chmodPathG t dest) t dest chunks mode).take k) dest = some ⟨chunks.flatten, effMode mode⟩) ∧
+    ∀ x, x ≠ t → x ≠ dest → run d ((opsWith C32.writeFileCalls (chmodPathG t dest) t dest chunks mode).take k) x = d x := by
+  rw [wfcalls_eq, chmodPathG_eq]
+  have hops : opsWith codedCalls t t dest chunks mode = pre t chunks mode ++ [.rename t dest] := ops_eq t dest chunks mode
   rw [hops]
   have hd : dest ≠ t := fun e => ht e.symm
   have hpre := run_pre_temp t chunks mode d
@@ -389,10 +398,10 @@ theorem C32_writeFile_atomic (t dest : String) (ht : t ≠ dest) (chunks : List 
 open PlzVerif.WriteFile in
 /-- run to the end, the destination holds the new content and the temporary is gone -/
 theorem C32_writeFile_complete (t dest : String) (ht : t ≠ dest) (chunks : List (List UInt8)) (mode : Nat) (d : Dir) :
-    run d (opsWith C32.writeFileCalls t dest chunks mode) dest = some ⟨chunks.flatten, effMode mode⟩ ∧
-    run d (opsWith C32.writeFileCalls t dest chunks mode) t = none := by
-  rw [wfcalls_eq]
-  have hops : opsWith codedCalls t dest chunks mode = pre t chunks mode ++ [.rename t dest] := ops_eq t dest chunks mode
+    run d (opsWith C32.writeFileCalls (chmodPathG t dest) t dest chunks mode) dest = some ⟨chunks.flatten, effMode mode⟩ ∧
+    run d (opsWith C32.writeFileCalls (chmodPathG t dest) t dest chunks mode) t = none := by
+  rw [wfcalls_eq, chmodPathG_eq]
+  have hops : opsWith codedCalls t t dest chunks mode = pre t chunks mode ++ [.rename t dest] := ops_eq t dest chunks mode
   rw [hops]
   have h1 := run_pre_temp t chunks mode d
   simp only [run] at h1
